@@ -17,18 +17,16 @@ pub open spec fn granted_by_current(l: DocLists, pn: String, idn: String, n: int
          || (0 <= j < l.roles[r].privileges@.len() && l.roles[r].privileges@[j] == pn
              && exists|y: int| 0 <= y < t && #[trigger] ra.identities@[y] == idn))
 }
+pub open spec fn tbl_row(pa: Map<String, std::collections::HashSet<String>>, pn: String, idn: String) -> bool {
+    pa.contains_key(pn) && pa[pn]@.contains(idn)
+}
 pub open spec fn table_inv(pa: Map<String, std::collections::HashSet<String>>, l: DocLists, n: int, j: int, t: int) -> bool {
-    forall|pn: String, idn: String| (pa.contains_key(pn) && #[trigger] pa[pn]@.contains(idn))
-        <==> (granted_upto(l, pn, idn, n) || granted_by_current(l, pn, idn, n, j, t))
+    forall|pn: String, idn: String| #[trigger] tbl_row(pa, pn, idn) <==> (granted_upto(l, pn, idn, n) || granted_by_current(l, pn, idn, n, j, t))
 }
 pub proof fn lemma_last_priv_range(s: Seq<Privilege>, n: String)
     ensures -1 <= last_priv(s, n) < s.len(), last_priv(s, n) >= 0 ==> s[last_priv(s, n)].name == n,
-            (forall|i: int| 0 <= i < s.len() ==> s[i].name != n) <==> last_priv(s, n) < 0,
     decreases s.len()
-{
-    if s.len() > 0 { lemma_last_priv_range(s.drop_last(), n);
-        if s.last().name != n { assert forall|i: int| 0 <= i < s.len() && s[i].name == n implies false by { if i < s.len() - 1 { assert(s.drop_last()[i] == s[i]); } } } }
-}
+{ if s.len() > 0 { lemma_last_priv_range(s.drop_last(), n); } }
 pub proof fn lemma_last_ident_range(s: Seq<Identity>, n: String)
     ensures -1 <= last_ident(s, n) < s.len(), last_ident(s, n) >= 0 ==> s[last_ident(s, n)].name == n,
     decreases s.len()
@@ -38,6 +36,10 @@ pub proof fn lemma_last_role_range(s: Seq<Role>, n: String)
     decreases s.len()
 { if s.len() > 0 { lemma_last_role_range(s.drop_last(), n); } }
 
+pub proof fn lemma_tbl_at(pa: Map<String, std::collections::HashSet<String>>, l: DocLists, n: int, j: int, t: int, p: String, idn: String)
+    requires table_inv(pa, l, n, j, t),
+    ensures tbl_row(pa, p, idn) <==> (granted_upto(l, p, idn, n) || granted_by_current(l, p, idn, n, j, t)),
+{}
 pub proof fn lemma_tbl_priv_done(pa_b: Map<String, std::collections::HashSet<String>>, pa2: Map<String, std::collections::HashSet<String>>, l: DocLists, n: int, j: int, pn: String)
     requires
         table_inv(pa_b, l, n, j, 0), 0 <= n < l.assignments.len(),
@@ -54,10 +56,9 @@ pub proof fn lemma_tbl_priv_done(pa_b: Map<String, std::collections::HashSet<Str
     let ra = l.assignments[n];
     let r = last_role(l.roles, ra.role);
     let ps = l.roles[r].privileges@;
-    assert forall|p: String, idn: String| (pa2.contains_key(p) && #[trigger] pa2[p]@.contains(idn))
+    assert forall|p: String, idn: String| #[trigger] tbl_row(pa2, p, idn)
         <==> (granted_upto(l, p, idn, n) || granted_by_current(l, p, idn, n, j + 1, 0)) by {
-        // old table
-        assert((pa_b.contains_key(p) && pa_b[p]@.contains(idn)) <==> (granted_upto(l, p, idn, n) || granted_by_current(l, p, idn, n, j, 0)));
+        lemma_tbl_at(pa_b, l, n, j, 0, p, idn);
         if granted_by_current(l, p, idn, n, j + 1, 0) {
             let x = choose|x: int| 0 <= x < j + 1 && #[trigger] ps[x] == p && ra.identities@.contains(idn);
             if x < j { assert(granted_by_current(l, p, idn, n, j, 0)); } else { assert(p == pn); }
@@ -84,14 +85,18 @@ pub proof fn lemma_tbl_priv_skipped(pa: Map<String, std::collections::HashSet<St
     let ra = l.assignments[n];
     let r = last_role(l.roles, ra.role);
     let ps = l.roles[r].privileges@;
-    assert forall|p: String, idn: String| granted_by_current(l, p, idn, n, j + 1, 0) <==> granted_by_current(l, p, idn, n, j, 0) by {
+    assert forall|p: String, idn: String| #[trigger] tbl_row(pa, p, idn)
+        <==> (granted_upto(l, p, idn, n) || granted_by_current(l, p, idn, n, j + 1, 0)) by {
+        lemma_tbl_at(pa, l, n, j, 0, p, idn);
         if granted_by_current(l, p, idn, n, j + 1, 0) {
             let x = choose|x: int| 0 <= x < j + 1 && #[trigger] ps[x] == p && ra.identities@.contains(idn);
             assert(x < j);
+            assert(granted_by_current(l, p, idn, n, j, 0));
         }
         if granted_by_current(l, p, idn, n, j, 0) {
             let x = choose|x: int| 0 <= x < j && #[trigger] ps[x] == p && ra.identities@.contains(idn);
             assert(0 <= x < j + 1 && ps[x] == p);
+            assert(granted_by_current(l, p, idn, n, j + 1, 0));
         }
     }
 }
@@ -104,11 +109,11 @@ pub proof fn lemma_tbl_assignment_done(pa: Map<String, std::collections::HashSet
 {
     let ra = l.assignments[n];
     let r = last_role(l.roles, ra.role);
-    assert forall|p: String, idn: String| (pa.contains_key(p) && #[trigger] pa[p]@.contains(idn))
+    assert forall|p: String, idn: String| #[trigger] tbl_row(pa, p, idn)
         <==> (granted_upto(l, p, idn, n + 1) || granted_by_current(l, p, idn, n + 1, 0, 0)) by {
         assert(!granted_by_current(l, p, idn, n + 1, 0, 0));
         let jj = if r >= 0 { l.roles[r].privileges@.len() as int } else { 0 };
-        assert((pa.contains_key(p) && pa[p]@.contains(idn)) <==> (granted_upto(l, p, idn, n) || granted_by_current(l, p, idn, n, jj, 0)));
+        lemma_tbl_at(pa, l, n, jj, 0, p, idn);
         if granted_upto(l, p, idn, n + 1) {
             let a = choose|a: int| 0 <= a < n + 1 && #[trigger] assignment_grants(l, l.assignments[a], p, idn);
             if a < n { assert(granted_upto(l, p, idn, n)); } else {
@@ -130,9 +135,10 @@ pub proof fn lemma_tbl_assignment_done(pa: Map<String, std::collections::HashSet
 }
 pub proof fn lemma_tbl_final(pa: Map<String, std::collections::HashSet<String>>, l: DocLists)
     requires table_inv(pa, l, l.assignments.len() as int, 0, 0),
-    ensures forall|pn: String, idn: String| (pa.contains_key(pn) && #[trigger] pa[pn]@.contains(idn)) <==> granted_doc(l, pn, idn),
+    ensures forall|pn: String, idn: String| #[trigger] tbl_row(pa, pn, idn) <==> granted_doc(l, pn, idn),
 {
-    assert forall|pn: String, idn: String| (pa.contains_key(pn) && #[trigger] pa[pn]@.contains(idn)) <==> granted_doc(l, pn, idn) by {
+    assert forall|pn: String, idn: String| #[trigger] tbl_row(pa, pn, idn) <==> granted_doc(l, pn, idn) by {
+        lemma_tbl_at(pa, l, l.assignments.len() as int, 0, 0, pn, idn);
         assert(!granted_by_current(l, pn, idn, l.assignments.len() as int, 0, 0));
         assert(granted_upto(l, pn, idn, l.assignments.len() as int) <==> granted_doc(l, pn, idn));
     }
